@@ -6,6 +6,7 @@ import (
 	"errors"
 	"fmt"
 	"reflect"
+	"strings"
 
 	stackage "github.com/JesseCoretta/go-stackage"
 	"pgregory.net/rapid"
@@ -26,6 +27,7 @@ type C14Case struct {
 	Target string    `json:"target"` // stack | cond   (closures mode)
 	Kind   string    `json:"kind"`
 	Cap    int       `json:"cap"`
+	Fold   bool      `json:"fold,omitempty"` // closures mode, Stack target: the case-folding option is on (the operator word renders lower-case; nothing else may change)
 	Expr   int       `json:"expr,omitempty"` // Condition target: 0 leaf expression; 1 a Stack; 2 a Stack with its own rejecting validity closure; 3 a Stack with rejecting validity+equality closures and a presentation closure
 	Steps  []C14Step `json:"steps"`
 }
@@ -221,6 +223,14 @@ func runC14Push(c C14Case) (st Stats, err error) {
 	}
 	_ = everRejected
 	return st, nil
+}
+
+func firstString(u []any) (string, bool) {
+	if len(u) == 0 {
+		return "", false
+	}
+	s, ok := u[0].(string)
+	return s, ok
 }
 
 // c14Expr: the expression of the Condition target (fresh instance per call).
@@ -440,6 +450,11 @@ func runC14Closures(c C14Case) (st Stats, err error) {
 		other = newStackOfKind(c.Kind, 0).Push("a", "c")
 		twin.SetEqualityPolicy(func(any, any) error { return fmt.Errorf("the argument's closure says: different") })
 		other.SetEqualityPolicy(func(any, any) error { return nil })
+		if c.Fold {
+			s.SetFold(true)
+			twin.SetFold(true)
+			other.SetFold(true)
+		}
 		if c.Expr >= 2 {
 			// a nested Stack (and a Condition holding one) that carry rejecting closures of their own:
 			// the receiver's installed closures must still be the ones that decide
@@ -462,6 +477,9 @@ func runC14Closures(c C14Case) (st Stats, err error) {
 		builtinString = ""
 	default:
 		builtinString = "a " + c.Kind + " b"
+		if c.Fold {
+			builtinString = "a " + strings.ToLower(c.Kind) + " b"
+		}
 	}
 	check := func(where string) *Violation {
 		var v *Violation
@@ -525,7 +543,7 @@ func runC14Closures(c C14Case) (st Stats, err error) {
 					v = violf("Stack.Unmarshal/closure", "%s: Unmarshal()=(%v,%v), closure returns ([U %d],%v)", where, u, uerr, cl.n, cl.err)
 					return
 				}
-			} else if !nestedClosures && (!reflect.DeepEqual(u, []any{c.Kind, "a", "b"}) || uerr != nil) {
+			} else if lab, _ := firstString(u); !nestedClosures && (len(u) != 3 || !strings.EqualFold(lab, c.Kind) || !reflect.DeepEqual(u[1:], []any{"a", "b"}) || uerr != nil) {
 				v = violf("Stack.Unmarshal/builtin", "%s: Unmarshal()=(%#v,%v) without closure", where, u, uerr)
 				return
 			}
@@ -697,7 +715,8 @@ func genC14(t *rapid.T, tier Tier) C14Case {
 		c.Target = "cond"
 		whiches = []string{"validity", "presentation", "equality", "unmarshal", "evaluator"}
 		c.Expr = rapid.SampledFrom([]int{0, 0, 1, 2, 3}).Draw(t, "exprform")
-	} else if rapid.IntRange(0, 3).Draw(t, "nested-closures") == 0 {
+		c.Fold = false
+	} else if c.Fold = rapid.IntRange(0, 2).Draw(t, "fold") == 0; rapid.IntRange(0, 3).Draw(t, "nested-closures") == 0 {
 		c.Expr = rapid.IntRange(2, 3).Draw(t, "nestedform")
 	}
 	n := rapid.IntRange(1, 6).Draw(t, "nsteps")
